@@ -507,6 +507,29 @@ func hostileAlphabet() []hostileObj {
 	mkTable("T-wrong-count", "B-honest", 200, []uint32{0})
 	mkTable("T-pk-out-of-range", "B-honest", 3, []uint32{7})
 	mkTable("T-keyless-over-ragged", "B-ragged", 3, nil)
+	// a two-block table over honest blocks: sound, with its two block-index sums swapped, and naming the first
+	// block's index twice - each index it names is a valid index of SOME block, possibly one already stored
+	full := make([][]string, 0, objects.BlockSize)
+	for i := 0; i < objects.BlockSize; i++ {
+		full = append(full, []string{fmt.Sprintf("0%03d", i), "q", "w"})
+	}
+	fullBytes := rawBlock(full)
+	out = append(out, hostileObj{"B-full", packfile.ObjectBlock, s2.EncodeBetter(nil, fullBytes)})
+	fidx, err := objects.IndexBlock(objects.NewStrListEncoder(true), meow.New(0), full, []uint32{0})
+	if err != nil {
+		panic(err)
+	}
+	fullIdxSum := model.Hash(mustBytes(func(w io.Writer) error { _, err := fidx.WriteTo(w); return err }))
+	mkTwo := func(name string, i0, i1 []byte) {
+		t := objects.NewTable([]string{"a", "b", "c"}, []uint32{0})
+		t.RowsCount = uint32(objects.BlockSize) + 3
+		t.Blocks = [][]byte{model.Hash(fullBytes), model.Hash(blocks["B-honest"])}
+		t.BlockIndices = [][]byte{i0, i1}
+		out = append(out, hostileObj{name, packfile.ObjectTable, mustBytes(func(w io.Writer) error { _, err := t.WriteTo(w); return err })})
+	}
+	mkTwo("T-two-honest", fullIdxSum, honestIdxSum)
+	mkTwo("T-two-swapped-indices", honestIdxSum, fullIdxSum)
+	mkTwo("T-two-first-index-twice", fullIdxSum, fullIdxSum)
 	tblSum := model.Hash(out[4].b)
 	com := &objects.Commit{Table: tblSum, AuthorName: "a", AuthorEmail: "b", Message: "m", Time: time.Unix(1700000000, 0).UTC()}
 	out = append(out, hostileObj{"C-honest", packfile.ObjectCommit, mustBytes(func(w io.Writer) error { _, err := com.WriteTo(w); return err })})
@@ -572,6 +595,13 @@ func c17Objects(c *mc.Ctx) {
 				c.Fail("receive-leaves-unusable", "%s %x is in the store although the receiver never reported it as saved (Receive returned %v); %s", k[:3], k[4:], rerr, desc)
 				return false
 			}
+			if strings.HasPrefix(k, "tbl/") {
+				// whatever the receiver keeps as a table must be structurally sound (I-TABLE; the profile is not demanded)
+				if msg := model.CheckTable(db, []byte(k[4:]), objects.BlockSize, false); msg != "" {
+					c.Fail("receive-leaves-unusable", "the receiver stored table %x (Receive returned %v), which is not sound: %s; %s", k[4:], rerr, msg, desc)
+					return false
+				}
+			}
 			if strings.HasPrefix(k, "com/") {
 				if cm, e := objects.GetCommit(db, []byte(k[4:])); e == nil {
 					for _, p := range cm.Parents {
@@ -621,7 +651,7 @@ func init() {
 		Rule: "complete edit-distance-1 neighbourhood of every valid encoding in the seed corpus (commits, tables, blocks, block indices, profiles, list sequences, pkt-lines, packfiles, s2-compressed block / block index, a real sender packfile): truncation at every offset; at every offset every replacement from {00,01,7f,80,ff,b+-1,b xor 2^i}; " +
 			"2- and 4-byte big-endian overwrites with {0,1,255,256,ffff,7fff(ffff),ffffffff,len,len+-1} at every offset; one-byte insertion of {00,ff,space,newline} and deletion at every offset; plus ALL byte strings of length <= 2 and all strings of length 3..4 over {00,01,80,ff,P,space,newline} (also ff-padded) for every entry point " +
 			"(ReadCommitFrom, ReadTableFrom, ReadBlockFrom, ValidateBlockBytes, ReadBlockIndex, TableProfile.ReadFrom, StrListDecoder.Read/ReadBytes, UintListDecoder.Read, ReadPktLine, PackfileReader, Get* on a store holding the bytes, ObjectReceiver.Receive into an empty and a pre-populated store). " +
-			"plus crafted packfile object headers (canonical encodings of boundary lengths up to 2^64-1 for every type code; every raw header 'first byte, 0..11 continuation bytes 80/ff, final byte' - negative as int64, over-long, never ending) fed to the packfile reader and the receiver; plus every sequence of 1..3 (thorough 4) objects from an alphabet of 13 well-formed but mutually inconsistent packfile objects (honest / ragged / empty / wide blocks; tables over them recording another block's index sum, a wrong row count, a key index beyond the columns; commits incl. one with a missing parent) fed to one receiver, in one packfile or one per object. " +
+			"plus crafted packfile object headers (canonical encodings of boundary lengths up to 2^64-1 for every type code; every raw header 'first byte, 0..11 continuation bytes 80/ff, final byte' - negative as int64, over-long, never ending) fed to the packfile reader and the receiver; plus every sequence of 1..3 (thorough 4) objects from an alphabet of 17 well-formed but mutually inconsistent packfile objects (honest / ragged / empty / wide / full 255-row blocks; tables over them recording another block's index sum, a wrong row count, a key index beyond the columns; a sound two-block table, the same with its two index sums swapped and with the first index named twice; commits incl. one with a missing parent) fed to one receiver, in one packfile or one per object; every table the receiver keeps must satisfy I-TABLE. " +
 			"Oracle: returns without panic; reads <= 4*len+64; heap bytes allocated during the call <= 64*len + 1 MiB; after Receive every table key present is fully usable and every commit has its parents. Workers run under ulimit -v so a runaway allocation is a captured crash. " +
 			"evaluations = (seed, mutation family) cases; counter hostile_inputs = decodes; non-trivial/distinct = (seed, family) or (entry point, length class)",
 		Assumptions: []string{"byte strings further than one edit from a valid encoding are only covered up to length 4", "allocation is measured as the runtime's cumulative heap-allocation counter around the call in a single-goroutine worker"},
